@@ -471,6 +471,28 @@ def run(ctx):
             wire = rc.enc_var(t) + rc.enc_var(len(body) + rng.choice([0, 0, 0, 1, -1, 300])  if len(body) else 0) + body
             klass = 'random-in-outer'
         judge(ctx, dec, wire, klass, steps=(i % 10 == 0))
+    # elements of types the format knows elsewhere (or knew in an earlier revision: 0x1f Delegation) at every gap inside a ForwardingHint
+    for nh in (0, 1, 2):
+        iw = rc.make_interest(gen.simple_name(rng), nonce=7, fwd_hint=[gen.simple_name(rng, 1, 2) for _ in range(nh)] if nh else [], app_param=None)[0] \
+            if nh else None
+        if iw is None:
+            iw = rc.make_interest(gen.simple_name(rng), nonce=7, app_param=None)[0]
+            b0, vs0, ve0 = rc.outer(iw, 5)
+            kids = rc.children(b0, vs0, ve0)
+            iw = rc.enc_tlv(5, b0[vs0:kids[0][3]] + rc.enc_tlv(0x1e, b'') + b0[kids[0][3]:ve0])      # an empty ForwardingHint after the Name
+        b0, vs0, ve0 = rc.outer(iw, 5)
+        kids = rc.children(b0, vs0, ve0)
+        fh = [k for k in kids if k[0] == 0x1e]
+        if not fh:
+            continue
+        _, fts, fvs, fve = fh[0]
+        inner = rc.children(b0, fvs, fve)
+        gaps = [fvs] + [k[3] for k in inner]
+        for t2 in (0x1f, 0x1d, 0x15, 0x21, 0x23, 0x0321, 0x0f01):
+            for body in (b'', rc.enc_tlv(0x1e, b'\x05'), rc.enc_name([rc.comp(8, b'old')]), rc.enc_tlv(0x1e, b'\x05') + rc.enc_name([rc.comp(8, b'old')])):
+                for g in gaps:
+                    val = b0[fvs:g] + rc.enc_tlv(t2, body) + b0[g:fve]
+                    judge(ctx, 'interest', rc.enc_tlv(5, b0[vs0:fts] + rc.enc_tlv(0x1e, val) + b0[fve:ve0]), 'known-critical-inside-forwarding-hint', steps=False)
     # every combination of fragmentation headers (this library reassembles nothing: an envelope that says it is a piece is refused)
     inner = rc.make_data(gen.simple_name(rng), content=b'piece', content_type=0, sig_type=0, sig_value=bytes(32))
     for fi in (None, 0, 1, 2, 5, 255, 256, 2**32):
